@@ -1924,6 +1924,9 @@ class Evaluator:
         if self.iterish(t):
             return t
         ov = self.opt_view(t) if isinstance(t, tuple) and t and t[0] in ('first', 'last', 'front', 'back', 'optidx', 'csub', 'boolthen') else None
+        if ov is not None and t[0] == 'boolthen':
+            # `c.then_some(x).into_iter()` is `once(x).filter(|_| c)`
+            return ('filter', ('once', ov[1]), ('lam', self.bvd, ov[0]))
         if ov is not None:
             return ('optiter', ov[0], ov[1])     # an Option iterated: its payload once if it is Some
         if isinstance(t, tuple) and len(t) == 2 and t[0] == 'arr' and 1 <= len(t[1]) <= 4:
@@ -2143,7 +2146,12 @@ class Evaluator:
                 return T.root(('case', v, 'Ok' if path.startswith('std::result::Result') else 'Some', 0))
             if name == 'map' and len(args) == 2 and path.startswith('std::result::Result'):
                 # r.map(f)  ==  Ok(f(r?)): the error is propagated unchanged, the value is transformed
+                self.trace.append(('try', node if node is not None else {}, a0))
                 return ('ok', self.apply(args[1], [T.root(('try', T.unroot(a0)))], depth))
+            if name == 'and_then' and len(args) == 2 and path.startswith('std::result::Result'):
+                # r.and_then(f)  ==  f(r?): the error of r is propagated unchanged, otherwise f decides
+                self.trace.append(('try', node if node is not None else {}, a0))
+                return self.apply(args[1], [T.root(('try', T.unroot(a0)))], depth)
             if name == 'map' and len(args) == 2:
                 return ('optmap', T.unroot(a0), self.lam(args[1], depth))
             if name == 'map_or' and len(args) == 3:
